@@ -347,8 +347,6 @@ class Ref:
             old = self.lays[l]
             if old is not None and (old.lk != lk or old.it != ca.it):
                 raise Invalid("lay types")
-            if old is not None and any(e[0] is not None for e in old.inds):
-                self.flags.add("layout-reassign")
             self.lays[l] = Lay(lk, ca.it, [self.share(e) for e in ca.inds], ca.sidx)
         elif op == "mlay":
             s, l, k, dt, fill = a
@@ -694,16 +692,18 @@ CORPUS = [
     "mat 0 2 0 0 2 2 0 1 0 lay 0 0 mlay 1 0 2 0 5 clone 2 1 0 0 destroy 0 destroy 1 destroy 2 ldrop 0 end",
     "mat 0 2 0 0 2 2 0 1 1 lay 0 0 ldrop 0 destroy 0 end",
     "mat 0 2 0 0 2 2 0 1 1 mat 1 2 1 0 1 1 1 5 0 clone 1 0 3 7 conv 1 0 1 0 destroy 0 destroy 1 end",
+    # a live SparseLayout object is assigned a second layout (leaked before fix eef945341 of /repo: former F-C20-1)
+    "mat 0 2 0 0 2 2 1 1 0 mat 1 2 0 0 2 2 1 1 0 lay 0 0 lay 0 1 ldrop 0 destroy 0 destroy 1 end",
+    "band 0 0 1 2 1 1 lay 1 0 lay 1 0 destroy 0 ldrop 1 end",
     # cross-type clone (all modes) into a live container
     "mat 0 2 0 0 2 2 1 3 1 mat 1 2 1 1 1 1 1 7 0 clone 1 0 0 5 clone 1 0 2 5 clone 1 0 1 5 clone 1 0 4 5 destroy 0 destroy 1 end",
 ]
 
-# genuine defects / edge behaviours of the current tree (see FINDINGS_C20.md); kept out of the main streams
-FINDINGS = [
-    ("F-C20-1 layout-reassign-leak", "mat 0 2 0 0 2 2 1 1 0 mat 1 2 0 0 2 2 1 1 0 lay 0 0 lay 0 1 ldrop 0 destroy 0 destroy 1 end", "EXIT:1"),
-    ("F-C20-1 layout-reassign-leak", "band 0 0 1 2 1 1 lay 1 0 lay 1 0 destroy 0 ldrop 1 end", "EXIT:1"),
-    ("F-C20-3 empty-blocked-convert-throws", "new 0 1 0 1 0 1 xconv 1 0 destroy 0 destroy 1 end", "EXC"),
-    ("F-C20-3 empty-blocked-convert-throws", "new 0 0 1 0 0 1 xconv 1 0 destroy 0 destroy 1 end", "EXC"),
+# open finding of the current tree (see FINDINGS_C20.md), kept out of the generated streams and judged in a stream
+# of its own; matched against the open KNOWN_FINDINGS.json entry with signature "c20-edge:F3"
+F3_CASES = [
+    "new 0 1 0 1 0 1 xconv 1 0 destroy 0 destroy 1 end",
+    "new 0 0 1 0 0 1 xconv 1 0 destroy 0 destroy 1 end",
 ]
 
 
@@ -758,6 +758,9 @@ def describe(case):
         for t in ops:
             if t[0] == "end":
                 break
+            if t[0] == "lay" and 0 <= int(t[1]) < NLAY and ref.lays[int(t[1])] is not None and \
+                    any(e[0] is not None for e in ref.lays[int(t[1])].inds):
+                keys.add("layout-reassigned-while-holding-arrays")
             ref.apply(t)
             if ref.has_null():
                 keys.add("zero-sized-array-present")
@@ -776,24 +779,20 @@ def signature(case, out, why):
     return "%s" % ((why or "")[:60])
 
 
-def findings_oracle(expected):
-    def f(case, out):
-        why = oracle(case, out)
-        tag, exp_out = expected.get(case, (None, None))
-        if tag is None:
-            return why
-        if why is not None and out == exp_out:
-            if tag not in f.reproduced:
-                f.reproduced.append(tag)
-            return None        # documented finding, still present
-        if why is None:
-            if tag not in f.gone:
-                f.gone.append(tag)
-            return None
-        return why
-    f.reproduced, f.gone = [], []      # lists are handed to the evidence writer and filled during the run
-    return f
-
+def signature_f3(case, out, why):
+    """F-C20-3: a dense<->blocked convert of an empty source ends with an exception"""
+    ops = split_ops(case) or []
+    ref = Ref()
+    try:
+        for t in ops:
+            if t[0] == "end":
+                break
+            ref.apply(t)
+    except (Abort, Invalid, IndexError):
+        pass
+    if "xconv-empty" in ref.flags and out == "EXC":
+        return "c20-edge:F3"
+    return signature(case, out, why)
 
 
 def main(argv):
@@ -831,8 +830,6 @@ def main(argv):
     null_cases = [gen_history(rng, rng.randrange(4, 40), allow=("self-convert",)) for _ in range(300 if quick else 3000)]
     abort_cases = [gen_abort_case(rng) for _ in range(200 if quick else 2000)]
     asan_cases = cases[:len(CORPUS) + (500 if quick else 6000)] + null_cases[:100 if quick else 1000] + abort_cases[:60 if quick else 600]
-    fexp = {c: (tag, o) for tag, c, o in FINDINGS}
-    forc = findings_oracle(fexp)
     streams = [
         vlib.Stream("lifetimes", cases, [binary], drv, oracle=oracle, canon=canon, nontrivial=nontrivial,
                     describe=describe, signature=signature),
@@ -842,12 +839,12 @@ def main(argv):
                     nontrivial=lambda c: True, describe=describe, signature=signature),
         vlib.Stream("lifetimes-asan", asan_cases, [asan], drv, oracle=oracle, canon=canon, nontrivial=nontrivial,
                     describe=describe, signature=signature),
-        vlib.Stream("known-findings", [c for _, c, _ in FINDINGS], [binary], drv, oracle=forc, canon=canon,
-                    nontrivial=lambda c: False, describe=describe, signature=signature),
-        vlib.Stream("known-findings-asan", [c for _, c, _ in FINDINGS], [asan], drv, oracle=forc, canon=canon,
-                    nontrivial=lambda c: False, describe=describe, signature=signature),
+        vlib.Stream("edge-F3", F3_CASES, [binary], drv, oracle=oracle, canon=canon,
+                    nontrivial=lambda c: False, describe=describe, signature=signature_f3),
+        vlib.Stream("edge-F3-asan", F3_CASES, [asan], drv, oracle=oracle, canon=canon,
+                    nontrivial=lambda c: False, describe=describe, signature=signature_f3),
     ]
-    rule = ("random histories (3..400 ops) over 8 container slots (DenseVector, DenseVectorBlocked<2>, CSR, BCSR<2,2>, "
+    rule = ("random histories (3..600 ops) over 8 container slots (DenseVector, DenseVectorBlocked<2>, CSR, BCSR<2,2>, "
             "Banded; data Q/float, index u32/u64) and 4 SparseLayout slots: construct/adopt/range/clone(5 modes, same "
             "and cross type)/convert/move(self, ctor, assign)/clear/destroy/format/write/layout take/make/assign/drop, "
             "random teardown order, MemoryPool::finalize at the end; full pool+container state compared after every "
@@ -858,10 +855,5 @@ def main(argv):
         "range views are only used while an owner of the viewed array lives (the guard of the property; "
         "DESIGN F14)",
         "moved-from std::vector is empty (libstdc++)"],
-        extra_cov={"rule": rule, "findings_reproduced": forc.reproduced,
-                   "findings_no_longer_reproduced": forc.gone})
-    for tag in sorted(forc.reproduced):
-        vlib.log("FINDING-REPRODUCED property=C20 %s (see FINDINGS_C20.md)" % tag)
-    for tag in sorted(forc.gone):
-        vlib.log("FINDING-GONE property=C20 %s no longer reproduces" % tag)
+        extra_cov={"rule": rule})
     return rc
